@@ -61,6 +61,18 @@ func runHistProp(o *Options, prop string, prof *Profile, quickN, thoroughN int, 
 		h.run()
 		hs = append(hs, h)
 	}
+	if prop == "C05" {
+		// slot transitions: every ordered pair of variable kinds (13 x 13) in the same slots across a reset
+		id := n
+		for _, a := range slotKinds {
+			for _, b := range slotKinds {
+				h := genSlotHistory(id, rng.Fork(), a, b)
+				h.run()
+				hs = append(hs, h)
+				id++
+			}
+		}
+	}
 	if err := runHistories(o, hs); err != nil {
 		res.InfraError = err.Error()
 		return res
